@@ -186,7 +186,8 @@ fn slfu_fill_sample() {
     kani::assume(m <= 2);
     let ik: [u64; 2] = kani::any();
     let ic: [i64; 2] = kani::any();
-    let mut input: Vec<(u64, i64)> = Vec::new();
+    // capacity reserved up front: no reallocation inside fill_sample (Vec growth is alloc's business, not the tracker's)
+    let mut input: Vec<(u64, i64)> = Vec::with_capacity(NMAX + 4);
     let mut i = 0;
     while i < 2 {
         if i < m {
